@@ -165,7 +165,14 @@ def run(ck):
                     ck.ok("C19.R1", "_convert_basis_element_to_index:weights 2^(n-1)..2^0", conv.site())
                 elif pa is not None and isinstance(pa, T.App) and pa.op == "pow":
                     e = pa.args[1]
-                    if e == T.app("arange", T.sym("n"), T.ZERO, T.const(-1)):
+                    prog_ = affine_arange(e) if pa.args[0] == T.const(2) else None
+                    n_ = T.sym("n")
+                    if prog_ is not None and prog_ == (n_ - 1, T.const(-1), n_):
+                        ck.ok("C19.R1", "_convert_basis_element_to_index:weights 2^(n-1)..2^0", conv.site())
+                    elif prog_ is not None and prog_[2] == n_ and prog_[1] == T.const(-1) and (prog_[0] - n_).const_value() is not None:
+                        ck.violation("C19.R1", "_convert_basis_element_to_index:weights 2^(n-1)..2^0", conv.site(),
+                                     "the largest exponent is %r, expected n - 1: every index is scaled by a power of two" % (prog_[0],))
+                    elif e == T.app("arange", T.sym("n"), T.ZERO, T.const(-1)):
                         ck.violation("C19.R1", "_convert_basis_element_to_index:weights 2^(n-1)..2^0", conv.site(), "weights run from 2^n to 2^1: every index is doubled")
                     else:
                         ck.undecided("C19.R1", "_convert_basis_element_to_index:weights 2^(n-1)..2^0", conv.site(), "exponents %r not recognised" % (e,))
@@ -230,8 +237,8 @@ def run(ck):
                 ck.check(dtype_name(byarg.get(k)) == "builtins.str", "C19.R3", "load_data:%s read as str" % k, ld.site(), "bases are read with dtype %s" % dtype_name(byarg.get(k)))
             if items is not None and len(items) == 4:
                 s_, tg, b1, b2 = items
-                ck.check(isinstance(s_, VTens) and s_.term == T.sym("file(tr_samples_path)") and s_.kind == "tensor", "C19.R3", "load_data:samples tensor", ld.site(), "first result is not the samples file as a tensor")
-                F = T.sym("file(tr_psi_path)")
+                ck.check(isinstance(s_, VTens) and s_.term == T.sym("file(samples_path)") and s_.kind == "tensor", "C19.R3", "load_data:samples tensor", ld.site(), "first result is not the samples file as a tensor")
+                F = T.sym("file(psi_path)")
                 col = lambda k: T.app("index", F, (("slice", None, None, None), k))  # noqa: E731
                 ck.check(isinstance(tg, VTens) and tg.term == T.stack0(col(0), col(1)), "C19.R3", "load_data:target columns (re, im)", ld.site(),
                          "target is not (column 0 -> real, column 1 -> imaginary): %r" % (getattr(tg, "term", None),))
@@ -255,7 +262,7 @@ def run(ck):
         names = ["samples_path", "re_path", "im_path", "tr_bases_path", "bases_path"]
         for p in returning(paths_of(prog, mk(names, ())), "load_data_DM"):
             items = p.interp.concrete_items(p.value)
-            ok = items is not None and len(items) == 4 and isinstance(items[1], VTens) and items[1].term == T.stack0(T.sym("file(tr_mtx_real_path)"), T.sym("file(tr_mtx_imag_path)"))
+            ok = items is not None and len(items) == 4 and isinstance(items[1], VTens) and items[1].term == T.stack0(T.sym("file(re_path)"), T.sym("file(im_path)"))
             ck.check(ok, "C19.R3", "load_data_DM:target (re, im)", ldm.site(), "target matrix is not make_complex(real file, imaginary file)")
             for nones in (("re_path",), ("im_path",)):
                 paths = paths_of(prog, mk(names, nones))
